@@ -258,7 +258,9 @@ def worker(widx, seed, tier, stats):
     n = {'quick': 80, 'thorough': 1000}[tier]
     runner.run_given(cases(gen_opts()), make_body(False), seed, n, stats)
     if not stats.violations:
-        runner.run_given(cases(gen_opts()), make_body(True), seed + 1, {'quick': 1, 'thorough': 20}[tier], stats,
+        cpp_opts = gen_opts()
+        cpp_opts.cpp_full_ok = True      # --cpp_full_out documents that it refuses several arrays per sizer
+        runner.run_given(cases(cpp_opts), make_body(True), seed + 1, {'quick': 1, 'thorough': 20}[tier], stats,
                          shrink=False)
 
 
